@@ -22,7 +22,9 @@ import (
 	"math/rand"
 	"os"
 	"path/filepath"
+	"regexp"
 	"regexp/syntax"
+	"runtime"
 	"sort"
 	"strings"
 	"sync"
@@ -514,6 +516,48 @@ func c09Read(path string, shard int, out *c09M, files *[]*c09File, searchers *[]
 	return "", nil
 }
 
+var c09FrameRe = regexp.MustCompile(`^(github\.com/sourcegraph/zoekt/index\.[^\s(]*(?:\([^)]*\))?[^\s(]*)\(`)
+
+// c09Guard runs f (a call into the code under test).  A panic is returned as a value.  If f has
+// not returned after a long time AND its goroutine is still running index code, the name of that
+// function is returned as hang and the goroutine is abandoned (a search that does not end is an
+// observation, a slow machine is not: without a running index frame the guard keeps waiting).
+func c09Guard(f func()) (panicked any, hang string) {
+	done := make(chan any, 1)
+	gid := make(chan string, 1)
+	go func() {
+		buf := make([]byte, 64)
+		buf = buf[:runtime.Stack(buf, false)]
+		gid <- strings.Fields(string(buf))[1]
+		done <- verifkit.Catch(f)
+	}()
+	id := <-gid
+	limit := time.Duration(verifkit.EnvInt("C09_HANG_S", 240)) * time.Second
+	for {
+		select {
+		case p := <-done:
+			return p, ""
+		case <-time.After(limit):
+			buf := make([]byte, 16<<20)
+			buf = buf[:runtime.Stack(buf, true)]
+			for _, g := range strings.Split(string(buf), "\n\n") {
+				lines := strings.Split(g, "\n")
+				if !strings.HasPrefix(lines[0], "goroutine "+id+" [") {
+					continue
+				}
+				if !strings.Contains(lines[0], "[running") && !strings.Contains(lines[0], "[runnable") {
+					break
+				}
+				for _, l := range lines[1:] {
+					if m := c09FrameRe.FindStringSubmatch(l); m != nil {
+						return nil, strings.TrimPrefix(m[1], "github.com/sourcegraph/zoekt/")
+					}
+				}
+			}
+		}
+	}
+}
+
 type c09Runner struct {
 	tr   *verifkit.Trace
 	work string
@@ -524,6 +568,7 @@ type c09Runner struct {
 type c09Exec struct {
 	work string
 	evs  []c09M
+	hung bool // a call into the index did not return: its goroutine still uses the mapped files
 }
 
 func (rn *c09Exec) emit(ev c09M) {
@@ -590,6 +635,9 @@ func (rn *c09Exec) run(b *c09Build, id int) {
 	var files []*c09File
 	var searchers []zoekt.Searcher
 	defer func() {
+		if rn.hung {
+			return // never unmap under a goroutine that is still reading
+		}
 		for _, s := range searchers {
 			s.Close()
 		}
@@ -610,7 +658,15 @@ func (rn *c09Exec) run(b *c09Build, id int) {
 	for i, p := range paths {
 		rstage := "read"
 		var rerr error
-		if pv := verifkit.Catch(func() { rstage, rerr = c09Read(p, i+1, &out, &files, &searchers) }); pv != nil {
+		pv, hang := c09Guard(func() { rstage, rerr = c09Read(p, i+1, &out, &files, &searchers) })
+		if hang != "" {
+			// the abandoned goroutine may still write into `out`: report with a fresh event
+			rn.hung = true
+			rn.emit(c09M{"ev": "readback", "id": id, "outcome": "hang:read", "msg": hang, "nshards": len(paths),
+				"repos": []c09M{}, "meta": []c09M{}, "docs": []c09M{}})
+			return
+		}
+		if pv != nil {
 			out["outcome"], out["msg"] = "panic:read", fmt.Sprint(pv)
 			break
 		}
@@ -629,7 +685,9 @@ func (rn *c09Exec) run(b *c09Build, id int) {
 		return
 	}
 	rn.symsub(b, id, searchers)
-	rn.tri(b, id, searchers)
+	if !rn.hung {
+		rn.tri(b, id, searchers)
+	}
 }
 
 // symbol-substring probes: the text of one symbol of one document searched as sym:<text>
@@ -678,9 +736,15 @@ func (rn *c09Exec) symsub(b *c09Build, id int, searchers []zoekt.Searcher) {
 		for _, srch := range searchers {
 			var sr *zoekt.SearchResult
 			var err error
-			if p := verifkit.Catch(func() {
+			p, hang := c09Guard(func() {
 				sr, err = srch.Search(context.Background(), q, &zoekt.SearchOptions{ChunkMatches: true, Whole: true})
-			}); p != nil {
+			})
+			if hang != "" {
+				ev["outcome"], ev["msg"] = "hang", hang
+				rn.hung = true
+				break
+			}
+			if p != nil {
 				ev["outcome"], ev["msg"] = "panic", fmt.Sprint(p)
 				break
 			}
@@ -708,6 +772,9 @@ func (rn *c09Exec) symsub(b *c09Build, id int, searchers []zoekt.Searcher) {
 			}
 		}
 		rn.emit(ev)
+		if rn.hung {
+			return
+		}
 	}
 }
 
@@ -734,7 +801,13 @@ func (rn *c09Exec) tri(b *c09Build, id int, searchers []zoekt.Searcher) {
 		for _, srch := range searchers {
 			var sr *zoekt.SearchResult
 			var err error
-			if p := verifkit.Catch(func() { sr, err = srch.Search(context.Background(), q, &zoekt.SearchOptions{}) }); p != nil {
+			p, hang := c09Guard(func() { sr, err = srch.Search(context.Background(), q, &zoekt.SearchOptions{}) })
+			if hang != "" {
+				ev["outcome"], ev["msg"] = "hang", hang
+				rn.hung = true
+				break
+			}
+			if p != nil {
 				ev["outcome"], ev["msg"] = "panic", fmt.Sprint(p)
 				break
 			}
@@ -753,6 +826,9 @@ func (rn *c09Exec) tri(b *c09Build, id int, searchers []zoekt.Searcher) {
 		}
 		ev["files"] = files
 		rn.emit(ev)
+		if rn.hung {
+			return
+		}
 	}
 }
 
